@@ -441,6 +441,8 @@ def predict_run(case, run):
                 row_number += 1
     resets = [("reset", c["desc"]) for c in rec_checks]
     cleanups = [("cleanup", c["desc"]) for c in rec_checks]
+    if (case.get("plugin") or {}).get("style") == "lean":
+        cleanups = []  # the checks leave cleanup() to the base class: nothing of it shows in the log
     all_at_end = [("check_at_end", c["desc"]) for c in rec_checks]
     at_end_options = [all_at_end]
     failing = [i for i, c in enumerate(rec_checks) if c["fails"]]
